@@ -108,6 +108,18 @@ def run(pid, tier, seed):
             f.write(b"2023-03-10T03:49:43.561000+00:00 src=T idx=0\n2023-04-02T07:06:50+00:00 src=T idx=1\n")
         sets.append((d5, ["t.log", "k.evtx.gz", "u.journal.xz"], []))
         i5 = len(sets) - 1
+        # accounting records holding the earliest and the latest instant of the run, a text log in between; the records alone
+        d6 = os.path.join(sc, "s6")
+        os.makedirs(d6)
+        from . import c08
+        with open(os.path.join(d6, "wtmp"), "wb") as f:
+            f.write(b"".join(c08.rec_bytes(i + 1, t_, usec=0) for i, t_ in enumerate([1, 2, 3])))
+        with open(os.path.join(d6, "mid.log"), "wb") as f:
+            f.write(b"".join(b"%s src=M idx=%d\n" % (gen.fmt_ts(c08.SECS["utmp"][2] + k_, 0, 0, 0).encode(), k_) for k_ in (-3, 0, 4)))
+        sets.append((d6, ["mid.log", "wtmp"], []))
+        i6 = len(sets) - 1
+        sets.append((d6, ["wtmp"], []))
+        i7 = len(sets) - 1
         def kind_of(name):
             return "event" if ".evtx" in name else "entry" if ".journal" in name else "record" if "tmp" in name else "text"
         kinds_of = {si: {w: kind_of(n_) for w, n_ in enumerate(files)} for si, (_d, files, _w) in enumerate(sets)}
@@ -120,6 +132,8 @@ def run(pid, tier, seed):
                    2: [[], ["-b", "2023-04-02T07:06:45+00:00"]],
                    3: [[], ["-b", "2023-04-02T07:07:00.789680+00:00"]],
                    i5: [[], ["-a", "2023-03-10T03:49:43.700+00:00"]],
+                   i6: [[], ["-a", gen.fmt_ts(c08.SECS["utmp"][1] + 1, 0, 0, 0)], ["-b", gen.fmt_ts(c08.SECS["utmp"][3] - 1, 0, 0, 0)]],
+                   i7: [[], ["-a", gen.fmt_ts(c08.SECS["utmp"][2], 0, 0, 0)]],
                    i4: [[], ["-a", "2000-01-01T00:00:00+00:00", "-b", "2000-01-02T03:04:05+00:00"], ["-a", "2000-01-01T00:00:00+00:00"],
                         ["-b", "2031-05-06T07:08:09+00:00"]],
                    i3: [[], ["-a", gen.fmt_ts(gen.BASE + 2, 0, 0, 0)], ["-a", "2030-01-01"],
